@@ -145,15 +145,43 @@ func runReplay(repo string, rf *replayFile, path string) (string, bool) {
 	ovData, _ := json.Marshal(ov)
 	ovPath := filepath.Join(tmp, "overlay.json")
 	os.WriteFile(ovPath, ovData, 0o644)
-	cmd := exec.Command("go", "test", "-overlay", ovPath, "-vet=off", "-count=1", "-v", "-timeout", "120s", "-run", "^TestGovcReplay$", "./"+pkgDir)
+	goArgs := []string{"test", "-overlay", ovPath, "-vet=off", "-count=1", "-v", "-timeout", "120s", "-run", "^TestGovcReplay$"}
+	if drv, err := os.ReadFile(driver); err == nil && strings.Contains(string(drv), "govc-replay: needs -race") {
+		goArgs = append(goArgs, "-race")
+	}
+	goArgs = append(goArgs, "./"+pkgDir)
+	cmd := exec.Command("go", goArgs...)
 	cmd.Dir = repo
 	cmd.Env = append(os.Environ(), "GOFLAGS=-mod=mod", "GOPROXY=off", "GOSUMDB=off", "GOTOOLCHAIN=local", "GOVC_REPLAY_FILE="+path)
 	out, _ := cmd.CombinedOutput()
+	verdictMsg := ""
 	for _, l := range strings.Split(string(out), "\n") {
 		if i := strings.Index(l, "GOVC-REPLAY: "); i >= 0 {
-			msg := l[i+len("GOVC-REPLAY: "):]
-			return msg, strings.HasPrefix(msg, "REPRODUCED")
+			verdictMsg = l[i+len("GOVC-REPLAY: "):]
+			if strings.HasPrefix(verdictMsg, "REPRODUCED") {
+				return verdictMsg, true
+			}
 		}
+	}
+	if i := strings.Index(string(out), "WARNING: DATA RACE"); i >= 0 {
+		// the race detector saw two conflicting accesses; report it when a frame of the package's own code is involved
+		rep := string(out)[i:]
+		if j := strings.Index(rep, "=================="); j > 0 {
+			rep = rep[:j]
+		}
+		if strings.Contains(rep, "/"+pkgDir+"/") {
+			var frames []string
+			for _, l := range strings.Split(rep, "\n") {
+				l = strings.TrimSpace(l)
+				if strings.HasPrefix(l, "Read at") || strings.HasPrefix(l, "Write at") || strings.HasPrefix(l, "Previous") || (strings.Contains(l, "/"+pkgDir+"/") && !strings.Contains(l, "_test.go")) {
+					frames = append(frames, l)
+				}
+			}
+			return "REPRODUCED data race reported by the Go race detector: " + trim(strings.Join(frames, " | "), 600), true
+		}
+	}
+	if verdictMsg != "" {
+		return verdictMsg, false
 	}
 	return "replay driver produced no verdict: " + trim(string(out), 400), false
 }
